@@ -3,8 +3,8 @@
 //! `(c06 (cmd ...) (argv ...))`        -> the `parse` result, and for an Ok result the value of
 //!                                        `ArgMatches::args_present()` at every level of the chain:
 //!                                        `ok (m ...) (present true false ...)`
-//! `(c06pair (cmd A) (cmd B) (argv ...))` -> `pair <result A> ;; <result B>` (same argv, same environment;
-//!                                        B is A with the default declarations removed)
+//! `(c06pair (cmd A) (argv ...))`     -> `pair <result A> ;; <result B>` (same argv, same environment;
+//!                                        B is A with the `default` / `dif` items of every argument removed)
 use crate::modes::parse::{build_cmd, show_result, EnvGuard};
 use crate::sexp::Sx;
 use clap::ArgMatches;
@@ -46,16 +46,30 @@ fn run_one(cmd_items: &[Sx], argv: &[Sx], with_present: bool) -> String {
     format!("{}{}", show_result(r), extra)
 }
 
+/// the command spec without `(default ..)` and `(dif ..)` items (at every level)
+fn strip_defaults(x: &Sx) -> Sx {
+    match x {
+        Sx::List(l) => Sx::List(
+            l.iter()
+                .filter(|it| !matches!(it, Sx::List(v) if !v.is_empty() && matches!(&v[0], Sx::Sym(h) if h == "default" || h == "dif")))
+                .map(strip_defaults)
+                .collect(),
+        ),
+        other => other.clone(),
+    }
+}
+
 /// Returns `Some(result)` when `head` is a mode of this file.
 pub fn dispatch(head: &str, args: &[Sx]) -> Option<String> {
     match head {
         "c06" => Some(run_one(args[0].args(), args[1].args(), true)),
         "c06pair" => {
-            let a = match catch_unwind(AssertUnwindSafe(|| run_one(args[0].args(), args[2].args(), false))) {
+            let a = match catch_unwind(AssertUnwindSafe(|| run_one(args[0].args(), args[1].args(), false))) {
                 Ok(s) => s,
                 Err(_) => "PANIC".into(),
             };
-            let b = match catch_unwind(AssertUnwindSafe(|| run_one(args[1].args(), args[2].args(), false))) {
+            let stripped = strip_defaults(&args[0]);
+            let b = match catch_unwind(AssertUnwindSafe(|| run_one(stripped.args(), args[1].args(), false))) {
                 Ok(s) => s,
                 Err(_) => "PANIC".into(),
             };
